@@ -954,7 +954,10 @@ func compareLogicXEQ(left r.Element, right r.Element) (bool, error) {
 				if err != nil {
 					return false, err
 				}
-				return cmpVal, nil
+				// break the loop only when cmpVal = false
+				if !cmpVal {
+					return false, nil
+				}
 			}
 			return true, nil
 		}
